@@ -198,8 +198,33 @@ def r3_index_replacement(ctx, F):
     ctx.floor("C11.R3", "writes of SmallMap.index in &mut self methods", n, 2)
 
 
+def r4_stable_sorts(ctx, F):
+    """sorting an insertion-ordered container keeps entries that compare equal in their insertion order (a plain list of
+    pairs sorted with the same comparator is the model): the sort routines of the ordered containers (Vec2, VecMap,
+    SmallMap/SmallSet and their wrappers) use the stable std sorts or their own insertion sort, never sort_unstable*"""
+    n = 0
+    for f in F.fns.values():
+        if f.crate != "starlark_map" or not re.search(r"src/(vec2|vec_map|small_map|small_set|ordered_map|ordered_set|"
+                                                      r"sorted_map|sorted_set|sorted_vec)\.rs", f.span):
+            continue
+        for c in f.calls:
+            if c.bb in f.cleanup or c.indirect:
+                continue
+            if re.search(r"::sort(_by|_by_key|_by_cached_key)?$", c.name):
+                n += 1
+            if re.search(r"::sort_unstable(_by|_by_key)?$|select_nth_unstable", c.name):
+                n += 1
+                ctx.bad("C11.R4", "unstable-sort:" + short_fn(top_fn(F, f).qpath),
+                        "`%s` sorts with `%s`: entries that compare equal are permuted, so the container no longer "
+                        "matches a list of pairs sorted with the same comparator" % (
+                            short_fn(top_fn(F, f).qpath), c.name.split("::")[-1]), fn=f, line=c.line)
+    ctx.floor("C11.R4", "sort calls in the ordered containers", n, 5, inventory=True)
+    ctx.ok("C11.R4", "ordered-containers-sort-stably", "no sort_unstable* in the ordered containers")
+
+
 def run(ctx):
     F = ctx.facts("core")
     r3_index_replacement(ctx, F)
+    r4_stable_sorts(ctx, F)
     r1_paired(ctx, F)
     r2_unique(ctx, F)
